@@ -337,18 +337,44 @@ def rows_cases(draw):
     c["upscale"] = draw(st.booleans())
     if c["cell"]:
         c["cell"] = [min(c["cell"][0], 6), min(c["cell"][1], 12)]
+    if draw(st.booleans()):
+        # the widget is first used under another cell ratio / cell size (same family of styles)
+        p = draw(geom())
+        if p["cell"]:
+            p["cell"] = [min(p["cell"][0], 6), min(p["cell"][1], 12)]
+        c["prior"] = {k: p[k] for k in p if k not in ("family",)}
     return c
 
 
 def check_rows(c, rec):
     from term_image.widget import UrwidImage
 
-    apply_cfg(c)
     UrwidImage._ti_next_z_index = 1
     UrwidImage._ti_free_z_indexes.clear()
-    image = make(c)
-    w = UrwidImage(image, upscale=c["upscale"])
+    if c.get("prior"):
+        apply_cfg(dict(c, **c["prior"]))
+        image = make(c)
+        w = UrwidImage(image, upscale=c["upscale"])
+        lib(lambda: w.rows((c["maxcol"],)), "UrwidImage.rows")
+        lib(lambda: w.render((c["maxcol"],)), "UrwidImage.render")
+        apply_cfg(c)
+        import urwid as _urwid
+
+        _urwid.CanvasCache.clear()  # urwid's own canvas cache is keyed by widget and size only
+        rec.label("prior_config")
+    else:
+        apply_cfg(c)
+        image = make(c)
+        w = UrwidImage(image, upscale=c["upscale"])
     n = lib(lambda: w.rows((c["maxcol"],)), "UrwidImage.rows")
+    if c.get("prior"):
+        image2 = make(c)
+        n2 = lib(lambda: UrwidImage(image2, upscale=c["upscale"]).rows((c["maxcol"],)), "UrwidImage.rows")
+        image2.close()
+        if n != n2:
+            raise Violation(f"flow widget first used under another cell geometry announces {n} rows for width {c['maxcol']}, a fresh "
+                            f"widget under the current geometry announces {n2} ({c['family']} src {c['ow']}x{c['oh']} cell {c['cell']} "
+                            f"ratio {c.get('ratio')} upscale={c['upscale']}; before: {c['prior']})", {"kind": "urwid_rows_stale"})
     canv = lib(lambda: w.render((c["maxcol"],)), "UrwidImage.render")
     if canv.rows() != n or canv.cols() != c["maxcol"]:
         raise Violation(f"flow widget announces {n} rows for width {c['maxcol']} but renders "
